@@ -119,8 +119,11 @@ NextMatches(w, id, e) ==
 
 \* the nodes a finished filter offered are those the model's filter offers
 FilterResMatches(w, e) ==
-    (e.typ = "filter" /\ ResOk(e)) =>
-        LET pn == ops[e.op].loc.podname IN pn \in DOMAIN w.filtered /\ w.filtered[pn].nodes = ToSet(e.res.nodes)
+    /\ (e.typ = "filter" /\ ResOk(e)) =>
+          LET pn == ops[e.op].loc.podname IN pn \in DOMAIN w.filtered /\ w.filtered[pn].nodes = ToSet(e.res.nodes)
+    \* preempt answers with the candidates it keeps (all of them when it could not compute the subnets)
+    /\ (e.typ = "preempt" /\ Has(e, "res")) =>
+          LET pn == "preempt:" \o ops[e.op].loc.podname IN pn \in DOMAIN w.filtered /\ w.filtered[pn].nodes = ToSet(e.res.nodes)
 
 Hint(e) == IF Has(e, "ret") /\ Has(e.ret, "ips") THEN [ips |-> e.ret.ips] ELSE [x |-> 0]
 
@@ -137,6 +140,7 @@ Proposed(e) ==
              THEN {w \in StepOutcomes(e.op, e.f, Hint(e)) : NextMatches(w, e.op, e) /\ FilterResMatches(w, e)}
              ELSE {}
       [] e.ev = "StartFilter" -> IF alive /\ e.pod \in DOMAIN pods THEN {w \in {StartFilterW(e.pod)} : NextMatches(w, e.op, e)} ELSE {}
+      [] e.ev = "StartPreempt" -> IF alive /\ e.pod \in DOMAIN pods THEN {w \in {StartPreemptW(e.pod)} : NextMatches(w, e.op, e)} ELSE {}
       [] e.ev = "StartBind" -> IF alive /\ e.pod \in DOMAIN pods THEN {w \in {StartBindW(e.pod, e.node)} : NextMatches(w, e.op, e)} ELSE {}
       [] e.ev = "StartUnbind" -> IF alive /\ work # <<>> THEN {w \in {StartUnbindW} : NextMatches(w, e.op, e)} ELSE {}
       [] e.ev = "StartResync" -> IF alive THEN {w \in {StartResyncW} : NextMatches(w, e.op, e)} ELSE {}
@@ -186,7 +190,7 @@ FromLog(e) ==
                 \* operations the model can no longer follow are dropped; later lines of theirs are skipped
                 !.ops = IF ~Exp(e, "alive") THEN Emp
                         ELSE IF Has(e, "op") /\ e.op \in DOMAIN ops THEN [x \in (DOMAIN ops) \ {e.op} |-> ops[x]] ELSE ops,
-                !.ctr = IF e.ev \in {"StartFilter", "StartBind", "StartUnbind", "StartResync", "StartApiRelease", "StartReload", "StartPoolUpsert"}
+                !.ctr = IF e.ev \in {"StartFilter", "StartPreempt", "StartBind", "StartUnbind", "StartResync", "StartApiRelease", "StartReload", "StartPoolUpsert"}
                           THEN [ctr EXCEPT !.op = e.op + 1]
                         ELSE IF e.ev = "DeliverPod" /\ e.op # 0 THEN [ctr EXCEPT !.op = e.op + 1]
                         ELSE IF e.ev = "CreatePod" THEN [ctr EXCEPT !.uid = ctr.uid + 1] ELSE ctr]
